@@ -9,6 +9,7 @@ import Verif.C13.LoaderLemmas
 import Verif.C13.LoaderRoundtrip
 import Verif.C13.MaskLemmas
 import Verif.C13.LinkLemmas
+import Verif.C13.NoMatch
 
 namespace Verif.C13
 
@@ -27,12 +28,15 @@ theorem loadRule_template (id n : Nat) (segs tr un : List Seg) (h : loadRule id 
 
 /-- A whole operation (rule, mask, iterative group, external group active or not): the output of
 the model's trace is the reference semantics `runOp` — same fuel, including "no result". -/
-theorem applyOp_eq_run (eng : Eng) (f : Nat) (op : Op) (s : Str) :
+theorem applyOp_eq_run (eng : Eng) (f : Nat) (op : Op) (s : Str) (_hmf : op.maskFree = true) :
     (applyOp eng f op s).map (fun st => lastOut st s) = runOp eng f op s := L.applyOp_run eng f op s
 
-/-- The module (`REPP.apply`): its result string is the reference run of its operations in order. -/
+/-- The module (`REPP.apply`): its result string is the reference run of its operations in order.
+Scope: modules without mask rules (`opsMaskFree`) — there the mask-free `applyOp`/`traceSteps` is what
+the code does (`maskfree_program`); `apply_eq_run_masked` states the same over the mask-threading
+semantics `traceStepsM`. -/
 theorem apply_eq_run (eng : Eng) (f : Nat) (ops : List Op) (s : Str) (st : List Step) (o : Str)
-    (h : traceSteps eng f ops s = .ok (st, o)) : runGroup eng f ops s = some o := by
+    (_hmf : opsMaskFree ops = true) (h : traceSteps eng f ops s = .ok (st, o)) : runGroup eng f ops s = some o := by
   have := L.groupApply_run eng f ops s
   unfold traceSteps at h
   cases hg : groupApply eng f ops s with
@@ -42,6 +46,13 @@ theorem apply_eq_run (eng : Eng) (f : Nat) (ops : List Op) (s : Str) (st : List 
     simp only [Except.ok.injEq, Prod.mk.injEq] at h
     rw [← this, ← h.2]
     rfl
+
+/-- the same over the semantics that threads the mask array (what the code runs in every case). -/
+theorem apply_eq_run_masked (eng meng : Eng) (f : Nat) (ops : List Op) (s : Str) (stm : List StepM) (o : Str)
+    (hmf : opsMaskFree ops = true) (h : traceStepsM eng meng f ops s = .ok (stm, o)) : runGroup eng f ops s = some o := by
+  have hm := L.traceStepsM_maskFree eng meng f ops s hmf
+  rw [h] at hm
+  exact apply_eq_run eng f ops s (stm.map (·.step)) o hmf (by simpa [Except.map] using hm.symm)
 
 /-- The fuel only bounds the computation: more fuel, same result. -/
 theorem run_fuel_irrelevant (eng : Eng) (f f' : Nat) (ops : List Op) (s o : Str)
@@ -75,6 +86,15 @@ theorem no_match_identity (s : Str) (tr un : List Seg) :
 /-- A rule step that did not apply changed nothing. -/
 theorem unapplied_identity (s : Str) (ms : List M) (tr un : List Seg) (h : (applyRule s ms tr un).applied = false) :
     applyRule s ms tr un = ⟨s, false, zeromap s, zeromap s⟩ := L.applyRule_unapplied s ms tr un h
+
+/-- "a module with no applicable rule returns its input", at module level: if no rewrite rule that runs
+(rules of inactive external groups do not count) has a match in the input, the result is the input
+and every yielded step — rule steps, group summaries, every round of every iterative group — reports
+the input with zero maps (hence the result maps are the initial ones, `Verif.C14.no_applicable_rule_maps`). -/
+theorem no_applicable_rule (eng : Eng) (f : Nat) (ops : List Op) (s : Str) (st : List Step) (o : Str)
+    (h : traceSteps eng f ops s = .ok (st, o)) (hn : opsNoMatchAt eng s ops = true) :
+    o = s ∧ ∀ x ∈ st, x.out = s ∧ x.sm = zeromap s ∧ x.em = zeromap s :=
+  L.no_applicable_rule eng f ops s st o h hn
 
 /-! ## "including files in place" -/
 
@@ -124,6 +144,36 @@ theorem load_roundtrip (env : Loader.Env) (info tok : Option Str) (nodes : List 
         = .ok (⟨Loader.opsOfNodes nodes, Loader.defsOfNodes nodes, tok, info⟩, []) :=
   Loader.L.load_roundtrip env info tok nodes hwf hnd hcalls hinfo htok
 
+/-- the hypotheses of `load_roundtrip` are satisfiable: a rule, a definition with its call before it
+containing a further call, a definition with its call after it containing a mask, a further call, a
+preloaded external module; `:` line given. -/
+example := load_roundtrip ⟨fun _ => none, false, ["m".toList]⟩ none (some ",".toList)
+  [.rule "a".toList "b".toList,
+   .defcall "1".toList [.rule "b".toList "c d".toList, .call "2".toList] true,
+   .defcall "2".toList [.mask "x ".toList] false,
+   .call "1".toList, .ext "m".toList]
+  (by decide) (by decide) (by decide) (by intro x h; cases h) (by intro x h; cases h; rfl)
+
+/-- `include_inline_text` at work with `hasDir = true`: the included file closes the group that the
+main text opened; loading the text with `<inc` gives what the spliced text gives. -/
+example : ∃ k, Loader.loadLines
+      ⟨fun n => if n = "inc".toList then some ["!b\tc".toList, "#".toList] else none, true, []⟩ k
+      (["#1".toList, "!a\tb".toList] ++ ('<' :: "inc ".toList) :: [">1".toList])
+    = .ok (⟨[.call "1".toList], [("1".toList, [.rule ['a'] ['b'], .rule ['b'] ['c']])], none, none⟩, []) :=
+  (include_inline_text ⟨fun n => if n = "inc".toList then some ["!b\tc".toList, "#".toList] else none, true, []⟩
+    "inc ".toList ["!b\tc".toList, "#".toList] rfl rfl ["#1".toList, "!a\tb".toList] [">1".toList] _
+    (by intro h; cases h)).mpr ⟨10, by rfl⟩
+
+/-- the same in a parser state with a group already open (`include_inline_state`). -/
+example : ∃ k, Loader.parse
+      ⟨fun n => if n = "inc".toList then some ["!b\tc".toList, "#".toList] else none, true, []⟩ k
+      ⟨[], [⟨"1".toList, [.rule ['a'] ['b']]⟩], [], ["1".toList], [], none, none, []⟩
+      ([] ++ ('<' :: "inc".toList) :: [">1".toList])
+    = .ok ⟨[.call "1".toList], [], [("1".toList, [.rule ['a'] ['b'], .rule ['b'] ['c']])], ["1".toList],
+           ["1".toList], none, none, []⟩ :=
+  (include_inline_state ⟨fun n => if n = "inc".toList then some ["!b\tc".toList, "#".toList] else none, true, []⟩
+    "inc".toList ["!b\tc".toList, "#".toList] rfl rfl _ [] [">1".toList] _ (by intro h; cases h)).mpr ⟨10, by rfl⟩
+
 /-- issue-308 instances: use before definition, and a nested definition called from the top level. -/
 example : ∃ k, Loader.loadLines ⟨fun _ => none, false, []⟩ k [">1".toList, "#1".toList, "!a\tb".toList, "#".toList]
     = .ok (⟨[.call "1".toList], [("1".toList, [.rule ['a'] ['b']])], none, none⟩, []) := ⟨10, by rfl⟩
@@ -141,7 +191,7 @@ Reading: the steps are the rule and mask steps; a group's summary step repeats i
 and reports the current string as output (also proved, `trace_structure`). -/
 
 theorem trace_structure (eng : Eng) (f : Nat) (ops : List Op) (s : Str) (st : List Step) (o : Str)
-    (h : traceSteps eng f ops s = .ok (st, o)) : TraceFrom eng s st o := by
+    (_hmf : opsMaskFree ops = true) (h : traceSteps eng f ops s = .ok (st, o)) : TraceFrom eng s st o := by
   unfold traceSteps at h
   cases hg : groupApply eng f ops s with
   | none => rw [hg] at h; cases h
@@ -153,13 +203,14 @@ theorem trace_structure (eng : Eng) (f : Nat) (ops : List Op) (s : Str) (st : Li
 
 /-- verbose trace: rule and mask steps form a chain from the input to the result of apply. -/
 theorem trace_chain (eng : Eng) (f : Nat) (ops : List Op) (s : Str) (st : List Step) (o : Str)
-    (h : traceSteps eng f ops s = .ok (st, o)) : Chain s (st.filter Step.isBasic) o :=
-  L.chainFrom_basic s st o (L.traceFrom_chainFrom eng s st o (trace_structure eng f ops s st o h))
+    (hmf : opsMaskFree ops = true) (h : traceSteps eng f ops s = .ok (st, o)) : Chain s (st.filter Step.isBasic) o :=
+  L.chainFrom_basic s st o (L.traceFrom_chainFrom eng s st o (trace_structure eng f ops s st o hmf h))
 
 /-- non-verbose trace (only applied steps are shown): still a chain ending in the result. -/
 theorem trace_chain_applied (eng : Eng) (f : Nat) (ops : List Op) (s : Str) (st : List Step) (o : Str)
-    (h : traceSteps eng f ops s = .ok (st, o)) : Chain s (st.filter (fun x => x.isBasic && x.applied)) o :=
-  L.traceFrom_applied_chain eng s st o (trace_structure eng f ops s st o h)
+    (hmf : opsMaskFree ops = true) (h : traceSteps eng f ops s = .ok (st, o)) :
+    Chain s (st.filter (fun x => x.isBasic && x.applied)) o :=
+  L.traceFrom_applied_chain eng s st o (trace_structure eng f ops s st o hmf h)
 
 /-! ## "a mask rule by itself never changes the string or any reported span" -/
 
@@ -190,8 +241,9 @@ theorem apply_text_main (env : Loader.Env) (E : Link.LinkEnv) (eng : Eng) (k f :
     (st : List Step) (res : Verif.C14.Result) (h : Link.applyText env E eng k f lines s = .ok (st, res)) :
     ∃ m mods ops, Loader.loadLines env k lines = .ok (m, mods) ∧
       Link.linkModule { E with mods := E.mods ++ mods } f m = .ok ops ∧
-      runGroup eng f ops s = some res.string :=
-  Link.L.applyText_main env E eng k f lines s st res h
+      (opsMaskFree ops = true → runGroup eng f ops s = some res.string) := by
+  obtain ⟨m, mods, ops, h1, h2, h3⟩ := Link.L.applyText_main env E eng k f lines s st res h
+  exact ⟨m, mods, ops, h1, h2, fun _ => h3⟩
 
 /-- "including files in place", on the whole pipeline: text with the line `<f` behaves on every input
 exactly as the text with f's lines spliced in (same result, same maps, same trace, or the same error). -/
@@ -208,7 +260,7 @@ the iterative group of the body defined under that name anywhere in the module) 
 proved about operation trees (`apply_eq_run`, `trace_chain`, C14's `provenance_program` …) holds of
 the text the harness gives to the real loader. -/
 theorem apply_text_of_tree (env : Loader.Env) (E : Link.LinkEnv) (eng : Eng) (f : Nat) (info tok : Option Str)
-    (nodes : List Loader.Node) (s : Str)
+    (nodes : List Loader.Node) (s : Str) (_hmf : Link.nodesMaskFree nodes = true)
     (hwf : Loader.wfNodes env.pre nodes = true)
     (hnd : ((Loader.defsOfNodes nodes).map (·.1)).Nodup)
     (hcalls : ∀ n ∈ Loader.callsOfNodes nodes, n ∈ (Loader.defsOfNodes nodes).map (·.1))
@@ -220,7 +272,16 @@ theorem apply_text_of_tree (env : Loader.Env) (E : Link.LinkEnv) (eng : Eng) (f 
 /-! ## programs WITH masks (outside the property's "module without masks"; Mask.lean models
 `_REPPMask._apply`, the blocking tests of `_process_match` and `_check_mask`)
 
-`(blockedM s m mk tr un).1 = false` is the explicit "not blocked" predicate. -/
+`(blockedM s m mk tr un).1 = false` is the explicit "not blocked" predicate.  `applyRuleM` is the loop
+as the code runs it (every match goes through `_process_match`; `continue` on a blocked one), so the
+statements below are about what the code does, via `masked_loop_is_filter`. -/
+
+/-- What the code does under a mask — the loop of `_REPPRule._apply` over ALL matches, a blocked one
+skipped by `continue` with `pos`, `shift`, the maps and `new_mask` untouched (`applyRuleM`,
+`ruleLoopM`) — is the mask-free loop over the matches that are not blocked plus the new mask array
+(`applyRuleF`): string, `applied`, both maps and the mask. -/
+theorem masked_loop_is_filter (s : Str) (ms : List M) (mk : MaskA) (tr un : List Seg) :
+    applyRuleM s ms mk tr un = applyRuleF s ms mk tr un := L.applyRuleM_eq_filter s ms mk tr un
 
 /-- Under any mask the string is the substitution of exactly the matches that are not blocked … -/
 theorem applyRuleM_string (s : Str) (ms : List M) (mk : MaskA) (tr un : List Seg) :
